@@ -303,6 +303,69 @@ def run(ctx):
                         res.disagreements.append({"what": "final published state differs from the model", "observed": ob, "model": fin})
                     res.traces_validated += 1
                 shutil.rmtree(d, ignore_errors=True)
+            if kind == "same_keep_cold":
+                # three parties: the late keeper (process 1) is stopped after it has found the store cold, the early keeper
+                # (process 0) evaluates and returns - from then on everything it committed is there for everybody - and the late
+                # keeper is then stepped one operation at a time; after each of its operations that changes the directories, an
+                # observer process loads every path and another one evaluates the same function on the (now warm) store
+                MUT = ("remove", "unlink", "replace", "rename", "symlink", "write1", "write2", "close", "open", "mkdir", "makedirs")
+                # stopping points: right before the late keeper starts writing a file, and right before each of its operations that
+                # removes, moves or links one (it has then already decided - on the cold store - to evaluate and to write)
+                t1 = traces[1]
+                first = [a for a, opn in enumerate(t1) if opn == "open" and a + 1 < len(t1) and t1[a + 1] == "write1"]
+                cand = first + [a for a, opn in enumerate(t1) if opn in ("replace", "remove", "unlink", "rename", "symlink")]
+                if not thorough and len(cand) > 8:
+                    cand = first[:4] + rng.sample(cand[len(first[:4]):], 4) if len(first) >= 4 else first + rng.sample(cand[len(first):], 8 - len(first))
+                for a in sorted(set(cand)):
+                    d = os.path.join(tmp, "run3")
+                    shutil.copytree(template, d, symlinks=True)
+                    _repoint(d, template)
+                    kids = [Child(fn, d) for fn in mk_fns(d)]
+                    for _ in range(a):
+                        if not kids[1].grant():
+                            break
+                    while kids[0].grant():
+                        pass
+                    bad = None
+                    nobs = 0
+                    if kids[0].result is None or kids[0].result[0] != "ok" or kids[0].result[1] != new_value:
+                        bad = "the early keeper returned %r, plain execution gives %r" % (kids[0].result, new_value)
+                    stepno = a
+                    while bad is None:
+                        kids[1].wait_request()
+                        opn = kids[1].pending.split(" ", 1)[-1] if kids[1].pending else None
+                        last = kids[1].trace[-1] if kids[1].trace else None
+                        if stepno == a or last in MUT:
+                            nobs += 1
+                            ob1 = in_child(loader(d + "/internal", d + "/data", sorted(new_paths), times=1))
+                            if ob1[0] != "ok":
+                                bad = "after the early keeper returned, a load fails while the late keeper is at operation %d (%s next): %s" % (stepno, opn, ob1[1])
+                            else:
+                                for (p_, v_) in ob1[1]:
+                                    if v_ != new_paths[p_]:
+                                        bad = "after the early keeper returned, load(%s) gives %r instead of %r while the late keeper is at operation %d (after %s)" % (
+                                            p_, v_, new_paths[p_], stepno, last)
+                                        break
+                            if bad is None and (thorough or nobs % 3 == 1):
+                                ob2 = in_child(evaluate(ws, modname, extmod, d + "/internal", d + "/data", None))
+                                if ob2[0] != "ok" or ob2[1] != new_value:
+                                    bad = "after the early keeper returned, a third process evaluating the same function gets %r instead of %r while the late keeper is at operation %d (after %s)" % (
+                                        ob2[1], new_value, stepno, last)
+                        if not kids[1].grant():
+                            break
+                        stepno += 1
+                    while kids[1].grant():
+                        pass
+                    if bad is None and (kids[1].result is None or kids[1].result[0] != "ok" or kids[1].result[1] != new_value):
+                        bad = "the late keeper returned %r, plain execution gives %r" % (kids[1].result, new_value)
+                    res.evaluations += 1 + nobs
+                    res.count("scenario_late_keeper_with_observers")
+                    res.count("observations_during_late_keeper", nobs)
+                    res.nontrivial("%d late keeper %d" % (si, a))
+                    if bad:
+                        res.violations.append({"what": bad, "input": {"scenario": "early keeper, late keeper stopped after %d operations, observers" % a,
+                                                                        "late_keeper_operations": traces[1], "source": progs.render_world(w, "extmod")}, "kf": None})
+                    shutil.rmtree(d, ignore_errors=True)
             if si == 0:
                 res.sample({"scenario": kind, "operations_per_process": [n0, n1], "schedules": schedules[:4]})
         finally:
